@@ -92,11 +92,22 @@ def position_size(placeholder=False):
     ]
 
 
-def color_props(prefix=""):
+def _mark(lazy, also, props):
+    """lazy: these readers have a documented side effect (line.color makes the line fill solid), so the driver does not read them
+    until one of them has been assigned in the scenario; also: further readings the group's setters are declared to change."""
+    for pr in props:
+        if lazy:
+            pr["lazy"] = lazy
+        if also and "coupled" in pr:
+            pr["coupled"] = list(pr["coupled"]) + list(also)
+    return props
+
+
+def color_props(prefix="", lazy=None, also=()):
     """ColorFormat: rgb / theme_color select the colour type (documented); brightness is an adjustment OF the colour
     choice: changing the type resets it (documented for rgb), and it needs a colour type."""
     pre = prefix
-    return [
+    return _mark(lazy, also, [
         P(pre + "rgb", "rgb", coupled=[pre + "theme_color", pre + "brightness", pre + "type"],
           src="ColorFormat.rgb: RGBColor; type changes to RGB, brightness adjustment removed"),
         enum(pre + "theme_color", "pptx.enum.dml.MSO_THEME_COLOR", coupled=[pre + "rgb", pre + "brightness", pre + "type"],
@@ -104,7 +115,7 @@ def color_props(prefix=""):
         P(pre + "brightness", "frac", lo=-1.0, hi=1.0, q=Q_FRAC, edgeDoc=True, needs=[pre + "type"], typ=(-0.25, 0.4, 0.0),
           src="ColorFormat.brightness: float between -1.0 and 1.0; needs a colour type"),
         RO(pre + "type"),
-    ]
+    ])
 
 
 def font_props():
@@ -224,10 +235,13 @@ KINDS = [
         RO("type"),
     ] + color_props("fore_color.") + color_props("back_color.")),
     dict(kind="Line", classes=["LineFormat"], deck="shapes", path="slides[0].shapes[2].line", corpus="line", props=[
-        emu("width", 0, 20116800, typ=(12700, 9525, 0, 38100), src="LineFormat.width: integer EMU; limits not stated (ST_LineWidth 0..1584 pt)"),
+        emu("width", 0, 20116800, typ=(12700, 9525, 38100, 0), src="LineFormat.width: integer EMU; limits not stated (ST_LineWidth 0..1584 pt)"),
         enum("dash_style", "pptx.enum.dml.MSO_LINE", none=True, xp="./*/a:ln/a:prstDash | ./*/a:ln/a:custDash",
              src="LineFormat.dash_style: member of MSO_LINE_DASH_STYLE or None"),
-    ]),
+        # colour through the SAME line object (users hold `line = shape.line`): width / dash / colour sequences interleave
+    ] + [dict(pr, coupled=[c for c in pr["coupled"] if not c.endswith("brightness")])
+         for pr in color_props("color.", lazy="color", also=["fill.type"]) if not pr["p"].endswith("brightness")]   # (brightness: LineColor kind)
+      + [RO("fill.type")]),
     dict(kind="LineColor", classes=["ColorFormat"], deck="shapes", path="slides[0].shapes[2].line.color", corpus="linecolor", props=color_props()),
     dict(kind="Shadow", classes=["ShadowFormat"], deck="shapes", path="slides[0].shapes[2].shadow", corpus="shadow", props=[
         boolean("inherit", src="ShadowFormat.inherit: True/False (bool(value) is taken: any value is accepted)"),
